@@ -150,10 +150,10 @@ Theorem C06_def_assign_sound : forall T body sg ev v1 v2,
 Proof. exact def_assign_sound. Qed.
 Print Assumptions C06_def_assign_sound.
 
-Theorem C06_single_driver_sound_partial : forall d sg ev wss wss',
-  single_driver_roots d = true ->
+Theorem C06_single_driver_commit_sound : forall d sg ev wss wss',
+  drivers_disjoint d = true ->
   Forall2 (fun c ws => exists vr0 vr1, run_conc sg vr0 ev c = Ok (vr1, ws)) d.(d_conc) wss ->
   Permutation.Permutation wss wss' ->
   res_equiv (commit sg (List.concat wss)) (commit sg (List.concat wss')).
-Proof. exact single_driver_sound_partial. Qed.
-Print Assumptions C06_single_driver_sound_partial.
+Proof. exact single_driver_commit_sound. Qed.
+Print Assumptions C06_single_driver_commit_sound.
